@@ -47,7 +47,8 @@ let parse_cmd (s : string) : cmd =
       CSetData (List.map item (split ',' ps), (int_of_string f) land 1 = 1)
   | ["io"; ps; bs] -> CInsertOrdered (List.map relpat (split ',' ps), List.map bspec (split ',' bs))
   | ["ro"; ps; bs] | ["xmv"; ps; bs] -> CReorder (List.combine (List.map relpat (split ',' ps)) (List.map bspec (split ',' bs)))
-  | ["rm"; p] | ["xrm"; p] -> CRemove (relpat p)
+  | ["rm"; ps] -> CRemove (List.map relpat (split ',' ps))
+  | ["xrm"; p] -> CRemove [relpat p]
   | ["su"; p] | ["sq"; p] -> CSubscribe (abspat p)
   | ["un"; p] -> CUnsubscribe (abspat p)
   | ["ua"] -> CUnsubscribeAll
